@@ -123,6 +123,7 @@ class Atoms:
     def __init__(self):
         self.desc = []
         self.index = {}
+        self.cond = {}      # boolean atoms: atom -> ('sign', poly, signs-when-true)
 
     def get(self, desc):
         i = self.index.get(desc)
